@@ -14,6 +14,7 @@ import (
 type UnitOpts struct {
 	LockMode   bool      // generate lock discipline obligations
 	Sequential bool      // Lock does not forget state (this call's own effects)
+	Guard      bool      // C14: check the lock-guard discipline on every access
 	Inst       *Instance // finite parameter instantiation (proof by instantiation)
 }
 
@@ -56,6 +57,7 @@ func verifyUnit(env *Env, key string, fn *ssa.Function, opts UnitOpts) (u *Unit)
 	x := newExec(env, key, fn)
 	x.lockMode = opts.LockMode
 	x.sequential = opts.Sequential
+	x.guardMode = opts.Guard
 	u = x.unit
 	defer func() {
 		if r := recover(); r != nil {
@@ -157,7 +159,18 @@ func verifyUnit(env *Env, key string, fn *ssa.Function, opts UnitOpts) (u *Unit)
 		}
 		if con.HasModifies {
 			x.modAllowed = x.evalModifies(&cenv{x: x, st: fr.old, old: fr.old, vars: vars}, con.Modifies)
-			x.modCheck = true
+			// guard mode checks the locking discipline only: frame obligations of (possibly
+			// trusted, abstracting) contracts are not generated, so they cannot be assumed either
+			x.modCheck = !x.guardMode
+		}
+	}
+	if x.lockMode {
+		// entry points are called with none of the package's mutexes held by the caller, except
+		// those the contract's requires mention (held(...) there creates the flag heap first)
+		for _, hn := range env.mutexHeaps() {
+			if _, ok := st.heap[hn]; !ok {
+				st.setH(hn, mkConstArr(arraySort(sortInt, sortBool), tFalse))
+			}
 		}
 	}
 	fr.old = st.clone()
@@ -224,7 +237,7 @@ func verifyUnit(env *Env, key string, fn *ssa.Function, opts UnitOpts) (u *Unit)
 func (x *Exec) checkNoLocksHeld(st *State, fn *ssa.Function) {
 	var names []string
 	for n := range st.heap {
-		if strings.HasPrefix(n, "ghost:held:") {
+		if strings.HasPrefix(n, "ghost:held:") || strings.HasPrefix(n, "ghost:rheld:") {
 			names = append(names, n)
 		}
 	}
